@@ -178,6 +178,9 @@ func (rd *reader) check(d damage, full bool) {
 		}
 	}
 	// ---- end-height markers
+	if !full && st.searchStride > 1 && d.pick%st.searchStride != 0 {
+		return
+	}
 	switch d.kind {
 	case "intact", "truncation", "truncation-fresh":
 		// nearest markers around the cut
